@@ -88,4 +88,32 @@ theorem mpls_lower_fixed (p : Nat) (s0 t : St Int) (h0 : Init (fixedArith p) s0)
   exact mpls_lower _ (fixed_lawful p) 2 (by norm_num) (fixed_rewLower_mulDiv p) rfl s0 t h0
     (start_of_init p _ s0 h0 hq1 hnoW) (integer_quota_pos p s0.nballots s0.seats) h
 
+/-! ## every configuration of wigm, `defeat_batch=zero` included, in one statement -/
+
+/-- wigm / wigm-prf / wigm-prf-batch under fixed-point arithmetic, **every** option setting: the count returns; its final
+    state — and every snapshot of its record — satisfies the conservation bundle (C02 upper half, C06 tallies = ballot values)
+    and the two-units-per-ballot-per-surplus-transfer lower bound (C02 lower half); the record is forward-only and append-only
+    (C09); unless the crash flag is up exactly `seats` candidates are elected and nobody is left hopeful (C01) -/
+theorem wigm_every_configuration_fixed (p : Nat) (o : WigmOpts) (s0 : St Int) (h0 : Init (fixedArith p) s0)
+    (hfresh : ∀ c ∈ s0.cands, c.st ≠ .elected) (henough : s0.seats ≤ nHop s0) (hround : s0.round = 0)
+    (hnoW : ∀ b ∈ s0.ballots, ∀ c ∈ s0.cands, c.st = .withdrawn → b.top ≠ some c.cid)
+    (hmore : s0.seats < s0.nballots) :
+    ∃ t, wigmCount (fixedArith p) o s0 = some t
+      ∧ Inv (fixedArith p) (t.logAct (fixedArith p) "end" "Count Complete" [])
+      ∧ LInv (fixedArith p) 2 (t.logAct (fixedArith p) "end" "Count Complete" [])
+      ∧ RecMon (snaps t.acts) ∧ Ext s0 t ∧ (t.crash = none → nEl t = t.seats ∧ nHop t = 0) := by
+  have hS := pow10_pos p
+  have hG := C01.wigm_start p o s0 h0 hfresh henough hround
+  have hq1 : pow10 p ≤ wigmQuota (fixedArith p) o s0 := by
+    rw [C01.wigmQuota_fixed]
+    split
+    · have hnn : 0 ≤ pdiv (s0.nballots : Int) ((s0.seats : Int) + 1) := pdiv_nonneg _ _ (by positivity) (by positivity)
+      nlinarith
+    · exact fractional_quota_ge_one p s0 hmore
+  have hL : LStart (fixedArith p) (wigmQuota (fixedArith p) o s0) s0 := start_of_init p _ s0 h0 hq1 hnoW
+  obtain ⟨t, ht⟩ := wigmCount_terminates_all _ (fixed_lawful p) (fixed_eqRefl p) 2 (by norm_num) (fixed_rewLower_mulDiv p) o
+    (fun _ => rfl) s0 hG hL
+  exact ⟨t, ht, wigm_result_all _ (fixed_lawful p) (fixed_eqRefl p) 2 (by norm_num) (fixed_rewLower_mulDiv p) o
+    (fun _ => rfl) s0 t hG hL ht⟩
+
 end Droop.C02
